@@ -27,7 +27,9 @@ fn run_named(threads: usize, calls: usize, shared_name: bool, name: &'static str
     EXECUTIONS.store(0, Ordering::SeqCst);
     *OUTCOMES.lock().unwrap() = Some(HashSet::new());
     let mut builder = loom::model::Builder::new();
-    builder.preemption_bound = None;
+    // Unbounded by default; the coordinator sets a preemption bound only when the unbounded exploration of this
+    // configuration does not finish within its budget (and reports the bound it completed).
+    builder.preemption_bound = std::env::var("C20_PREEMPTION_BOUND").ok().and_then(|v| v.parse().ok());
     if let Ok(v) = std::env::var("C20_MAX_BRANCHES") {
         builder.max_branches = v.parse().unwrap();
     }
